@@ -148,6 +148,7 @@ static int htp_gzip_decompressor_restart(htp_decompressor_gzip_t *drec,
     return 0;
 
 restart:
+    HTP_VERIF_TRACE(3, NULL, drec, (long) drec->restart);
 #if 0
     gz_header y;
     gz_headerp x = &y;
